@@ -118,8 +118,10 @@ def mk_fits(rng, kind=None, pointing=None, scale=None, rot=None, crpix=None, sha
     if kind == 'cd':
         w.wcs.cd = scale * m
     else:
-        w.wcs.pc = m
-        w.wcs.cdelt = [scale, scale * (1.0 + rng.uniform(-0.01, 0.01))]
+        # PC + CDELT form with CDELT1 != CDELT2 (sign convention and anisotropy carried by CDELT)
+        k = rng.choice([1.0, 1.0, 0.5, 2.0, 1.01])
+        w.wcs.pc = build_matrix(r, r + skew, 1.0, 1.0)
+        w.wcs.cdelt = [par * scale * k, scale / k]
     w.wcs.crval = [ra, dec]
     w.wcs.crpix = cp
     w.wcs.ctype = ['RA---TAN', 'DEC--TAN']
